@@ -546,9 +546,9 @@ func TestVerifC04Tok(t *testing.T) {
 			classB    string // 3 s later
 		}
 		hts := []htok{
-			{"expires-in-2s-alice", mk(keys[0], bu-10, bu-10, bu+2), "valid", "expired"},
-			{"expires-in-2s-bob", mk(keys[1], bu-10, bu-10, bu+2), "valid", "expired"},
-			{"valid-from-2s", mk(keys[0], bu-10, bu+2, bu+3600), "not-yet-valid", "valid"},
+			{"expires-in-2s-alice", mk(keys[0], bu-10, bu-10, bu+3), "valid", "expired"},
+			{"expires-in-2s-bob", mk(keys[1], bu-10, bu-10, bu+3), "valid", "expired"},
+			{"valid-from-2s", mk(keys[0], bu-10, bu+3, bu+3600), "not-yet-valid", "valid"},
 			{"valid-for-an-hour", mk(keys[2], bu-10, bu-10, bu+3600), "valid", "valid"},
 			{"expired-already", mk(keys[0], bu-100, bu-100, bu-5), "expired", "expired"},
 		}
@@ -566,7 +566,7 @@ func TestVerifC04Tok(t *testing.T) {
 		}
 		present("A", 1)
 		present("A", 2)
-		time.Sleep(time.Until(time.Unix(bu+3, 250_000_000)))
+		time.Sleep(time.Until(time.Unix(bu+5, 250_000_000))) // margins of >= 2 s around exp / nbf: safe on a loaded machine
 		present("B", 1)
 		present("B", 2)
 	}
